@@ -398,7 +398,10 @@ func c03RunLine(e *c03Env, u *c03Universe, l *c03Line, n int64, seed int64, st *
 	// a table with a history (deleted routes) is built both ways; plain tables alternate
 	builders := []string{"text"}
 	if len(dead) > 0 {
-		builders = []string{"text", "custom"}
+		builders = []string{"custom"}
+		if (n+seed)%3 == 0 {
+			builders = []string{"text", "custom"}
+		}
 	} else if (n+seed)%5 == 0 {
 		builders = []string{"custom"}
 	}
@@ -499,7 +502,7 @@ func c03RunBatch(u *c03Universe, lines []*c03Line, n int64, st *c03Stats) error 
 	atomic.AddInt64(&st.batches, 1)
 	var wg sync.WaitGroup
 	var stop int32
-	const goroutines, rounds = 8, 3
+	const goroutines, rounds = 6, 1
 	for g := 0; g < goroutines; g++ {
 		wg.Add(1)
 		go func(g int) {
